@@ -58,10 +58,13 @@ package dependency
 //@   at Insert #1
 //@     assert [no-conflict-left] forall k int {existingInputs[k]} :: 0 <= k && k < len(existingInputs) ==> !sameKeys(existingInputs[k], dep)
 //@     assert [no-conflict-at-lock-time; using no-conflict-left] forall k int :: 0 <= k && k < len(existingInputs) ==> !sameKeys(acq(existingInputs[k]), dep)
+//@     assert [scanned-list-is-the-stored-list; using binary-search] acq(in(controllerName, db.controllerInputs)) ==> existingInputs.blk == acq(db.controllerInputs[controllerName]).blk &&
+//@       existingInputs.off == acq(db.controllerInputs[controllerName]).off && len(existingInputs) == acq(len(db.controllerInputs[controllerName]))
 //@   loop #1
 //@     invariant [scanned-so-far] forall j int :: 0 <= j && j <= rangeindex ==> !(0 <= idx + j - 1 && idx + j - 1 < len(existingInputs) && sameKeys(existingInputs[idx + j - 1], dep))
 //@     invariant [state] db != nil && 0 <= idx && idx <= len(existingInputs)
-//@   ensures [conflicting-input-rejected; using no-conflict-at-lock-time] (exists k int :: 0 <= k && k < len(existingInputs) && sameKeys(acq(existingInputs[k]), dep)) ==> result != nil
+//@   ensures [conflicting-input-rejected; using no-conflict-at-lock-time, scanned-list-is-the-stored-list] acq(in(controllerName, db.controllerInputs)) &&
+//@     (exists k int :: 0 <= k && k < acq(len(db.controllerInputs[controllerName])) && sameKeys(acq(db.controllerInputs[controllerName][k]), dep)) ==> result != nil
 //@   ghost dbWrites = dbWrites + ite(result == nil, 1, 0)
 //@   ensures [counted] dbWrites == old(dbWrites) + ite(result == nil, 1, 0)
 //@   ensures [rejected-has-no-effect] result != nil ==> (forall c string :: (in(c, db.controllerInputs) <==> acq(in(c, db.controllerInputs))) &&
